@@ -21,13 +21,13 @@ import (
 )
 
 type Opt struct {
-	XGo       bool // XGo-builtin configuration (big-number types, builtin package from internal/builtin)
-	Bare      bool // nil-ish configuration: no recorder, no interpreter
-	NoCompare bool // skip dump / type comparison
-	Recover   bool // statement-level error recovery in the front end
-	FileNames []string
-	PkgPath   string
-	AfterOp   func()
+	XGo            bool // XGo-builtin configuration (big-number types, builtin package from internal/builtin)
+	Bare           bool // nil-ish configuration: no recorder, no interpreter
+	NoCompare      bool // skip dump / type comparison
+	Recover        bool // statement-level error recovery in the front end
+	FileNames      []string
+	PkgPath        string
+	AfterOp        func()
 	NoSkipConstant bool
 	NoRef          bool // skip the reference side entirely (resource measurements)
 	NoWrite        bool // with NoRef: do not print either (go/printer is quadratic in nesting depth by itself)
@@ -40,7 +40,7 @@ type Diff struct {
 }
 
 type RecEvent struct {
-	Kind string // member / call
+	Kind string   // member / call
 	Node ast.Node // rendered on demand (NodeStr): rendering eagerly would make long selector chains quadratic in the monitor
 	Obj  types.Object
 }
@@ -456,6 +456,7 @@ func (o *Outcome) compare(u *ref.Universe, c *fe.Compiler) {
 	if x, y := strings.Join(ref.InitOrder(a), ","), strings.Join(ref.InitOrder(b), ","); x != y && len(o.Src.Files) == 1 {
 		o.OrderDiff = "initialisation order of package-level declarations differs: source [" + x + "] output [" + y + "]"
 	}
+	defer o.compareDecls(c) // after the expression pairs: the first recorded difference of an input stays the same
 	if c.Recs == nil {
 		return
 	}
@@ -507,6 +508,86 @@ func (o *Outcome) compare(u *ref.Universe, c *fe.Compiler) {
 			}
 		}
 	}
+}
+
+// compareDecls: the type (and, for constants, the value) the builder's scope exposes for every declared object —
+// package-level variables, constants and functions, parameters, results and locals — against the object go/types
+// defines in the emitted package. A name declared more than once in one function (shadowing) is not compared.
+func (o *Outcome) compareDecls(c *fe.Compiler) {
+	if len(c.Decls) == 0 || o.Out == nil || o.Out.Pkg == nil {
+		return
+	}
+	type span struct{ pos, end token.Pos }
+	funcs := map[string]span{}
+	for _, f := range o.Out.Files {
+		for _, d := range f.Decls {
+			if fd, ok := d.(*ast.FuncDecl); ok {
+				k := fd.Name.Name
+				if fd.Recv != nil && len(fd.Recv.List) == 1 {
+					k = "(" + types.ExprString(fd.Recv.List[0].Type) + ")." + k
+				}
+				funcs[k] = span{fd.Pos(), fd.End()}
+			}
+		}
+	}
+	keys := make([]string, 0, len(c.Decls))
+	for k := range c.Decls {
+		keys = append(keys, k)
+	}
+	sort.Strings(keys)
+	for _, k := range keys {
+		i := strings.LastIndexByte(k, '/')
+		if i < 0 || strings.Contains(k, "#case") || strings.Contains(k[:i], ".func@") {
+			continue
+		}
+		fn, name := k[:i], k[i+1:]
+		bt := c.Decls[k]
+		if bt == nil {
+			continue
+		}
+		var obj types.Object
+		if fn == "" {
+			obj = o.Out.Pkg.Scope().Lookup(name)
+		} else {
+			sp, ok := funcs[fn]
+			if !ok {
+				continue
+			}
+			n := 0
+			for id, ob := range o.Out.Info.Defs {
+				if ob != nil && id.Name == name && id.Pos() >= sp.pos && id.Pos() < sp.end {
+					obj = ob
+					n++
+				}
+			}
+			if n != 1 {
+				continue
+			}
+		}
+		if obj == nil {
+			continue
+		}
+		if _, isType := obj.(*types.TypeName); isType {
+			continue
+		}
+		what := "declared " + name
+		if fn != "" {
+			what += " in " + fn
+		}
+		o.NCmpDecl++
+		if !ref.TypeEq(bt, obj.Type()) {
+			o.TypeDiffs = append(o.TypeDiffs, Diff{what, TypeStr(bt), TypeStr(obj.Type())})
+		}
+		if gk, ok := obj.(*types.Const); ok {
+			if bv, ok := c.DeclVals[k]; ok {
+				o.NCmpCVal++
+				if !SameConst(bv, gk.Val()) {
+					o.CValDiffs = append(o.CValDiffs, Diff{what, cvalStr(bv), cvalStr(gk.Val())})
+				}
+			}
+		}
+	}
+	o.NCmpType += o.NCmpDecl
 }
 
 // compareEmitted is the type oracle for programs that have no valid Go source (language extensions the builder lowers):
